@@ -497,6 +497,8 @@ pub enum MOp {
     Setters(usize),
     Flush,
     CreateUnder(usize),
+    /// open, seek to the end, relative seeks on both sides of it, then overwrite a few bytes
+    SeekAround(usize),
 }
 
 /// Mutation alphabet for a file with `ns` streams and `nd` storages (by walk index).
@@ -510,6 +512,7 @@ pub fn mutation_alphabet(ns: usize, nd: usize) -> Vec<MOp> {
         v.push(MOp::SetLen(i, 100));
         v.push(MOp::SetLen(i, 5000));
         v.push(MOp::RemoveStream(i));
+        v.push(MOp::SeekAround(i));
     }
     for i in 0..nd.min(4) {
         v.push(MOp::RemoveStorage(i));
@@ -544,6 +547,22 @@ fn do_mop(l: &mut Live, op: &MOp, streams: &[std::path::PathBuf], storages: &[st
                 if let Ok(s) = l.comp.create_stream(p) {
                     let mut s = ops::NoDropOnPanic::new(s);
                     let _ = s.write_all(&data(*n));
+                    let _ = s.flush();
+                }
+            }
+        }
+        MOp::SeekAround(i) => {
+            if let Some(p) = streams.get(*i) {
+                if let Ok(s) = l.comp.open_stream(p) {
+                    let mut s = ops::NoDropOnPanic::new(s);
+                    let _ = s.seek(SeekFrom::End(0));
+                    let _ = s.seek(SeekFrom::Current(1));
+                    let _ = s.seek(SeekFrom::Current(i64::MAX));
+                    let _ = s.seek(SeekFrom::Current(-7));
+                    let _ = s.write_all(&data(20));
+                    let _ = s.seek(SeekFrom::Start(3));
+                    let _ = s.seek(SeekFrom::Current(i64::MAX));
+                    let _ = s.write_all(&data(5));
                     let _ = s.flush();
                 }
             }
@@ -693,6 +712,12 @@ impl CaseSpace {
             let (_, base, _) = bases(thorough).into_iter().find(|b| b.0 == inner)?;
             let pair_list = chain_mutations(&base);
             return Some(CaseSpace { base, singles: Vec::new(), pair_list });
+        }
+        if let Some(inner) = base_id.strip_prefix("fields:") {
+            // field-aware single corruptions only (no field-agnostic word sweep)
+            let (_, base, _) = bases(thorough).into_iter().find(|b| b.0 == inner)?;
+            let singles = field_mutations(&base, false);
+            return Some(CaseSpace { base, singles, pair_list: Vec::new() });
         }
         let (_, base, full) = bases(thorough).into_iter().find(|b| b.0 == base_id)?;
         let singles = mutations(&base, full, base_id == "fresh-v3" || base_id == "mixed-v4");
